@@ -233,6 +233,12 @@ func (w *opsWorld) apply(op string) (r opResult) {
 		port, _ := strconv.ParseUint(parts[3], 10, 16)
 		as.HttpPort, as.TcpPort, as.UdpPort = uint16(port), uint16(port)+1, uint16(port)+2
 		as.GCAAuthorization = glow.Sign(refServerSigningBytes(as), w.signerPriv(parts[4]))
+		if len(parts) > 6 && parts[6] == "stale" {
+			as.Banned = !as.Banned // altered after signing: carries the genuine signature of the unaltered entry
+		}
+		if len(parts) > 6 && parts[6] == "staleport" {
+			as.UdpPort += 7
+		}
 		body, _ := json.Marshal(as)
 		var code int
 		panicked = safely(func() { code, _ = w.httpDo("POST", "/api/v1/authorized-servers", body) })
@@ -250,6 +256,12 @@ func (w *opsWorld) apply(op string) (r opResult) {
 		ns.GCAAuthorization = glow.Sign(refServerSigningBytes(ns), w.signerPriv(parts[4]))
 		em.NewServers = []server.AuthorizedServer{ns}
 		em.Signature = glow.Sign(refMigrationSigningBytes(em), w.signerPriv(parts[3]))
+		if len(parts) > 5 && parts[5] == "stale" {
+			em.NewShortID++ // altered after signing
+		}
+		if len(parts) > 5 && parts[5] == "staleserver" {
+			em.NewServers[0].TcpPort += 9 // inner entry altered after both signatures were made
+		}
 		body, _ := json.Marshal(em)
 		var code int
 		panicked = safely(func() { code, _ = w.httpDo("POST", "/api/v1/equipment-migrate", body) })
